@@ -376,6 +376,14 @@ int _vnacal_new_add_common(vnacal_new_add_arguments_t vnaa)
     assert(ptype != '\000');
 
     /*
+     * An abbreviated measurement matrix cannot have more rows or columns
+     * than the calibration itself, e.g. a two-port standard measured
+     * with a 1x2 calibration still has only one row.
+     */
+    min_b_rows    = MIN(min_b_rows,    full_m_rows);
+    min_b_columns = MIN(min_b_columns, full_m_columns);
+
+    /*
      * Check the S matrix size.  TODO: these error messages may be
      * confusing if the caller is using something other than the mapped
      * matrix interface because otherwise, they don't provide the s
